@@ -47,7 +47,7 @@ type C07Sc struct {
 	Evs   []C07Ev
 }
 
-var c07Variants = []string{"correct", "correct", "correct-error", "wrong-port", "wrong-port-low-bit", "port-digit-to-t", "t-digit-to-port", "wrong-ip", "mapped", "t-inc", "t-prefix", "t-ext", "t-empty", "t-other", "t-other", "dup", "dup", "query-same-t", "overlong-t"}
+var c07Variants = []string{"correct", "correct", "correct-error", "wrong-port", "wrong-port-low-bit", "port-digit-to-t", "t-digit-to-port", "wrong-zone", "wrong-ip", "mapped", "t-inc", "t-prefix", "t-ext", "t-empty", "t-other", "t-other", "dup", "dup", "query-same-t", "overlong-t"}
 
 func genC07(t *rapid.T) C07Sc {
 	sc := C07Sc{Dual: rapid.Bool().Draw(t, "dual")}
@@ -64,6 +64,11 @@ func genC07(t *rapid.T) C07Sc {
 			ip := net.ParseIP("2001:db8::1").To16()
 			ip[15] = byte(rapid.IntRange(1, 2).Draw(t, "d.host"))
 			s = Src{IP: kit.Hex(ip), Port: port}
+			if uniformInt(t, 3, "d.linklocal") == 0 {
+				// a link-local destination: the scope zone is part of the address
+				ip[0], ip[1], ip[2], ip[3] = 0xfe, 0x80, 0, 0
+				s = Src{IP: kit.Hex(ip), Port: port, Zone: pick(t, "d.zone", "eth0", "eth1")}
+			}
 		} else {
 			ip := net.IP{9, 8, 7, byte(rapid.IntRange(1, 2).Draw(t, "d.host"))}
 			if sc.Dual {
@@ -400,7 +405,7 @@ func runC07(sc C07Sc, c *kit.Case) *kit.Violation {
 			}
 			qi := startedIdx[ev.Q%len(startedIdx)]
 			q := qs[qi]
-			from := &net.UDPAddr{IP: append(net.IP(nil), q.dest.IP...), Port: q.dest.Port}
+			from := &net.UDPAddr{IP: append(net.IP(nil), q.dest.IP...), Port: q.dest.Port, Zone: q.dest.Zone}
 			t := []byte(q.t)
 			marker := nextMarker()
 			isErr := false
@@ -428,6 +433,15 @@ func runC07(sc C07Sc, c *kit.Case) *kit.Violation {
 				if len(t) > 0 && t[0] >= '0' && t[0] <= '9' && q.dest.Port*10+int(t[0]-'0') <= 65535 {
 					from.Port = q.dest.Port*10 + int(t[0]-'0')
 					t = t[1:]
+				} else {
+					from.Port = 1 + q.dest.Port%65535
+				}
+			case "wrong-zone":
+				// the same link-local address and port, reached over another interface
+				if q.dest.Zone == "eth0" {
+					from.Zone = "eth1"
+				} else if q.dest.Zone != "" {
+					from.Zone = "eth0"
 				} else {
 					from.Port = 1 + q.dest.Port%65535
 				}
